@@ -2,6 +2,7 @@
 use super::common::*;
 use crate::checks::*;
 use crate::imgx;
+use crate::model::ActKind;
 use crate::obs::*;
 use crate::scenario::*;
 use serde_json::json;
@@ -33,7 +34,16 @@ const OPTS: LifeOpts = LifeOpts {
 
 pub fn case(ctx: &mut CaseCtx) -> CaseOut {
     let sc = ctx.scenario(|r| {
-        let mut s = gen_lifecycle(r, &OPTS);
+        let mut opts = OPTS;
+        // a third of the programs with catches (a task that has caught is a composite with catch steps beneath it)
+        opts.catches = r.below(3) == 0;
+        let mut s = gen_lifecycle(r, &opts);
+        // some programs with a backward `next` jump (everything between the target and the jump is visited again)
+        let has_generators = { let mut g = false; s.models[0].visit_acts(&mut |a| g |= matches!(a.kind, ActKind::Block { .. } | ActKind::Parallel { .. } | ActKind::Sequence { .. })); g };
+        if !has_generators && r.below(6) == 0 {
+            add_loop(&mut s.models[0], r);
+            s.starts[0].vars.insert("c".into(), json!(0));
+        }
         // more parallelism: prefer branching steps
         s.engine.keep_processes = r.below(4) != 0;
         s
